@@ -78,6 +78,8 @@ def run(R):
                 "the exception thrown into the generator is not the error object that was handed to the stepper (wrapped, copied or replaced)")
         if cand:
             err_params.add(cand[0])
+        if cand and len(c.args) == 3:
+            common.stamp_trusted(R, "C02.FLOW-THROW", step, [n], cand[0], True, "the three-argument throw() in %s" % step.name)
     R.need(len(err_params) == 1, "idiom: the stepper's error parameter is ambiguous")
     ep = err_params.pop()
     # the caller passes the object bound by the handler around unwrap(self._last_value)
@@ -263,6 +265,10 @@ def run(R):
         if isinstance(x, ast.Attribute) and isinstance(x.ctx, ast.Load) and isinstance(x.value, ast.Name) and x.value.id == ep and x.attr in ("_type_", "_traceback", "_task"):
             stx = q.enclosing_stmt(x)
             nodes_x = [y for y in scfg_.nodes if y.stmt is stx]
+            # in a short-circuit condition the read belongs to the operand that contains it: `hasattr(e, a) and isinstance(e.a, ..)`
+            holding = [y for y in nodes_x if y.kind == "test" and y.ast is not None and any(z is x for z in ast.walk(y.ast))]
+            if holding:
+                nodes_x = holding
 
             def carries(nd):
                 if nd.kind != "test":
